@@ -13,6 +13,78 @@
 //        damping b, mass m, no gravity (mjDSBL_EULERDAMP set): q' v' time' M
 #include "mjgen.h"
 #include "engine/engine_support.h"   // mj_nextActivation is not part of the public header
+//   I seed feat nbody rep integ         -> implicit / implicitfast (or Euler) step on a generated model whose derivative-relevant
+//        parameters are re-randomised (asymmetric / one-sided forceranges and ctrlranges, kv and velocity gains, gear signs,
+//        joint / tendon damping, disabled actuator groups), with the force-velocity derivative measured by finite differences:
+//        nv | h | v | v1 | f | M (nv*nv) | fb (standalone-free-body id per dof or -1) | S0 | P0 | Sp (nv cols) | Sm | Pp | Pm | qDeriv (nv*nv) | nwarn
+//        S = qfrc_smooth, P = qfrc_passive + qfrc_actuator, column i = forward dynamics at qvel[i] +- eps
+
+#include "engine/engine_derivative.h"  // mjd_smooth_vel
+
+// custom model for the derivative checks: index spaces that coincide on mjgen models are pulled apart
+// (multi-input PID actuators in front of limited ones: actuator index != control index), tendons across sibling
+// branches and along a chain, asymmetric / one-sided force and control ranges, a standalone free body
+static mjModel* c05_custom(unsigned long long seed) {
+  mjg_rng R = { seed * 0x9E3779B97F4A7C15ULL + 99 }; mjg_rng* r = &R;
+  mjSpec* s = mj_makeSpec();
+  s->option.timestep = 0.002 * (1 + mjg_int(r, 4));
+  mjsBody* world = mjs_findBody(s, "world");
+  mjsBody* bd[5]; const char* jn[5] = {"j0", "j1", "j2", "j3", "j4"};
+  int parent[5] = {-1, 0, 0, 1, 2};
+  for (int b = 0; b < 5; b++) {
+    bd[b] = mjs_addBody(parent[b] < 0 ? world : bd[parent[b]], NULL);
+    bd[b]->pos[0] = mjg_range(r, -0.3, 0.3); bd[b]->pos[1] = mjg_range(r, -0.3, 0.3); bd[b]->pos[2] = parent[b] < 0 ? 1.0 : mjg_range(r, -0.3, 0.3);
+    mjsJoint* j = mjs_addJoint(bd[b], NULL); mjs_setName(j->element, jn[b]);
+    j->type = mjg_chance(r, 0.3) ? mjJNT_SLIDE : mjJNT_HINGE;
+    for (int k = 0; k < 3; k++) j->axis[k] = mjg_range(r, -1, 1);
+    if (fabs(j->axis[0]) + fabs(j->axis[1]) + fabs(j->axis[2]) < 0.2) j->axis[1] = 1;
+    if (mjg_chance(r, 0.5)) j->damping[0] = mjg_range(r, 0, 1.5);
+    mjsGeom* g = mjs_addGeom(bd[b], NULL); g->type = mjGEOM_CAPSULE; g->size[0] = 0.04; g->size[1] = 0.1; g->pos[0] = 0.1; g->contype = 0; g->conaffinity = 0;
+  }
+  if (mjg_chance(r, 0.5)) {
+    mjsBody* fbd = mjs_addBody(world, NULL); fbd->pos[0] = 3; fbd->pos[2] = 2; mjs_addFreeJoint(fbd);
+    mjsGeom* g = mjs_addGeom(fbd, NULL); g->type = mjGEOM_BOX; g->size[0] = 0.05; g->size[1] = 0.1; g->size[2] = 0.2; g->contype = 0; g->conaffinity = 0;
+  }
+  // tendon t0 couples the sibling branches (j1 | j2), t1 runs along one chain (j1, j3), t2 couples j3 and j4 (cousins)
+  const char* tj[3][2] = {{"j1", "j2"}, {"j1", "j3"}, {"j3", "j4"}}; const char* tn[3] = {"t0", "t1", "t2"};
+  for (int t = 0; t < 3; t++) {
+    mjsTendon* tt = mjs_addTendon(s, NULL); mjs_setName(tt->element, tn[t]);
+    mjs_wrapJoint(tt, tj[t][0], mjg_range(r, 0.3, 1.2)); mjs_wrapJoint(tt, tj[t][1], -mjg_range(r, 0.3, 1.2));
+    if (mjg_chance(r, 0.4)) tt->damping[0] = mjg_range(r, 0.1, 1);
+  }
+  // actuators in random order
+  int na = 3 + mjg_int(r, 4);
+  int pidfirst = mjg_chance(r, 0.6);
+  for (int k = 0; k < na; k++) {
+    mjsActuator* a = mjs_addActuator(s, NULL);
+    int kind = (k == 0 && pidfirst) ? 0 : (k == 1 ? 1 : mjg_int(r, 7));
+    int ontendon = kind >= 4 && mjg_chance(r, 0.5);
+    if (ontendon) { a->trntype = mjTRN_TENDON; mjs_setString(a->target, tn[mjg_int(r, 3)]); }
+    else { a->trntype = mjTRN_JOINT; mjs_setString(a->target, jn[mjg_int(r, 5)]); }
+    a->gear[0] = mjg_range(r, 0.5, 2) * (mjg_chance(r, 0.3) ? -1 : 1);
+    double kv = mjg_range(r, 0.2, 4);
+    if (kind == 0) {            // multi-input PID: 2 or 3 controls
+      static const int specs[4] = {mjINPUT_POS | mjINPUT_VEL | mjINPUT_FF, mjINPUT_POS | mjINPUT_VEL, mjINPUT_VEL | mjINPUT_FF, mjINPUT_POS | mjINPUT_FF};
+      mjs_setToPID(a, mjg_range(r, 1, 10), &kv, NULL, NULL, NULL, NULL, 0, specs[mjg_int(r, 4)]);
+    } else if (kind == 1 || kind == 4) {   // affine velocity gain, limited control with an asymmetric range
+      a->gaintype = mjGAIN_AFFINE; a->gainprm[0] = mjg_range(r, 0.5, 2); a->gainprm[1] = mjg_range(r, -0.5, 0.5); a->gainprm[2] = mjg_range(r, 0.3, 1.5) * (mjg_chance(r, 0.5) ? -1 : 1);
+      a->biastype = mjg_chance(r, 0.5) ? mjBIAS_AFFINE : mjBIAS_NONE; a->biasprm[0] = mjg_range(r, -1, 1); a->biasprm[1] = mjg_range(r, -2, 0); a->biasprm[2] = -mjg_range(r, 0, 2);
+      a->ctrllimited = mjLIMITED_TRUE; a->ctrlrange[0] = -mjg_range(r, 0.1, 0.6); a->ctrlrange[1] = mjg_range(r, 0.7, 1.4);
+    } else if (kind == 2) { mjs_setToDamper(a, kv); a->ctrlrange[0] = 0; a->ctrlrange[1] = mjg_range(r, 0.3, 1.5); }
+    else if (kind == 3 || kind == 5) { mjs_setToVelocity(a, kv); }
+    else { mjs_setToPosition(a, mjg_range(r, 1, 20), &kv, NULL, NULL, 0); }
+    if (kind != 0 && mjg_chance(r, 0.7)) {
+      a->forcelimited = mjLIMITED_TRUE; int c = mjg_int(r, 4); double x = mjg_range(r, 0.05, 2), y = mjg_range(r, 0.05, 2);
+      if (c == 0) { a->forcerange[0] = -x; a->forcerange[1] = y; } else if (c == 1) { a->forcerange[0] = -x; a->forcerange[1] = 0; }
+      else if (c == 2) { a->forcerange[0] = 0; a->forcerange[1] = y; } else { a->forcerange[0] = -x; a->forcerange[1] = x; }
+    }
+    a->group = mjg_int(r, 3);
+  }
+  mjModel* m = mj_compile(s, NULL);
+  if (!m) fprintf(stderr, "c05_custom: compile failed seed=%llu: %s\n", seed, mjs_getError(s));
+  mj_deleteSpec(s);
+  return m;
+}
 
 static mjModel* M = NULL; static unsigned long long cs = 0; static unsigned cf = 0; static int cn = -1;
 static mjModel* get_model(unsigned long long seed, unsigned feat, int nbody) {
@@ -69,10 +141,10 @@ int main(void) {
         int rep = (int)strtol(p, &p, 10);
         mjData* d = mj_makeData(m);
         mjg_rng r = {seed * 17 + rep * 104729 + 3};
-        int cnt = 0; for (int i = 0; i < m->nu; i++) cnt += m->actuator_actnum[i];
+        int cnt = 0; for (int i = 0; i < m->nactuator; i++) cnt += m->actuator_actnum[i];
         printf("%d", cnt);
         static const int dyns[5] = {mjDYN_INTEGRATOR, mjDYN_FILTER, mjDYN_FILTEREXACT, mjDYN_MUSCLE, mjDYN_USER};
-        for (int i = 0; i < m->nu; i++) {
+        for (int i = 0; i < m->nactuator; i++) {
           int save_dyn = m->actuator_dyntype[i]; mjtNum save_prm = m->actuator_dynprm[i * mjNDYN];
           int save_lim = m->actuator_actlimited[i]; mjtNum save_lo = m->actuator_actrange[2 * i], save_hi = m->actuator_actrange[2 * i + 1];
           for (int j = m->actuator_actadr[i]; j < m->actuator_actadr[i] + m->actuator_actnum[i]; j++) {
@@ -134,7 +206,7 @@ int main(void) {
           printf(" | %d", m->nq); pv(q0, m->nq); printf(" | %d", m->nv); pv(v0, m->nv);
           printf(" |"); pv(d->qpos, m->nq); printf(" |"); pv(d->qvel, m->nv); printf(" |"); pv(d->qacc, m->nv);
           printf(" | %d", m->na);
-          for (int i = 0; i < m->nu; i++) for (int j = m->actuator_actadr[i]; j < m->actuator_actadr[i] + m->actuator_actnum[i]; j++) {
+          for (int i = 0; i < m->nactuator; i++) for (int j = m->actuator_actadr[i]; j < m->actuator_actadr[i] + m->actuator_actnum[i]; j++) {
             printf(" %d", (int)m->actuator_actlimited[i]); pv(m->actuator_actrange + 2 * i, 2); pv(d->act + j, 1);
           }
           printf(" | %d", d->warning[mjWARN_BADQPOS].number + d->warning[mjWARN_BADQVEL].number + d->warning[mjWARN_BADQACC].number);
@@ -143,6 +215,123 @@ int main(void) {
         m->opt.disableflags = savef; m->opt.integrator = savei;
         free(q0); free(v0); mj_deleteData(d);
       }
+    } else if (op == 'I') {
+      unsigned long long seed = strtoull(p, &p, 10); unsigned feat = (unsigned)strtoul(p, &p, 10); int nbody = (int)strtol(p, &p, 10);
+      int rep = (int)strtol(p, &p, 10), integ = (int)strtol(p, &p, 10);
+      int custom = feat == 0xFFFFFFFFu;
+      mjModel* m = custom ? c05_custom(seed) : mjg_model(seed, feat, nbody, NULL);
+      if (!m) { printf("ERR compile\n"); fflush(stdout); continue; }
+      mjg_rng r = {seed * 41 + rep * 15485863ULL + 17};
+      m->opt.integrator = integ;
+      // index spaces: actuator i (nactuator), control c (nu), output o (actuator_outadr)
+      for (int i = 0; i < m->nactuator && !custom; i++) {
+        int c = mjg_int(&r, 6);
+        m->actuator_forcelimited[i] = c != 0;
+        mjtNum a = mjg_range(&r, 0.02, 3), b = mjg_range(&r, 0.02, 3);
+        mjtNum* fr = m->actuator_forcerange + 2 * i;
+        if (c == 1) { fr[0] = -a; fr[1] = a; } else if (c == 2) { fr[0] = -a; fr[1] = 0; } else if (c == 3) { fr[0] = 0; fr[1] = b; }
+        else if (c == 4) { fr[0] = a; fr[1] = a + b; } else { fr[0] = -a; fr[1] = b; }
+        if (m->actuator_ctrlnum[i] == 1) {
+          int u = m->actuator_ctrladr[i], c2 = mjg_int(&r, 4);
+          m->actuator_ctrllimited[u] = c2 != 0;
+          mjtNum* cr = m->actuator_ctrlrange + 2 * u;
+          if (c2 == 1) { cr[0] = -1; cr[1] = 1; } else if (c2 == 2) { cr[0] = -0.2; cr[1] = 1.5; } else { cr[0] = 0; cr[1] = 0.7; }
+        }
+        if (m->actuator_biastype[i] == mjBIAS_AFFINE && mjg_chance(&r, 0.7)) m->actuator_biasprm[i * mjNBIAS + 2] = -mjg_range(&r, 0, 4);
+        if (m->actuator_gaintype[i] == mjGAIN_AFFINE && mjg_chance(&r, 0.7)) m->actuator_gainprm[i * mjNGAIN + 2] = mjg_range(&r, -1, 1);
+        if (mjg_chance(&r, 0.3)) m->actuator_gear[6 * m->actuator_outadr[i]] = -m->actuator_gear[6 * m->actuator_outadr[i]];
+        m->actuator_group[i] = mjg_int(&r, 3);
+      }
+      if (mjg_chance(&r, 0.2)) m->opt.disableactuator = 1 << mjg_int(&r, 3);
+      for (int i = 0; i < m->nv && !custom; i++) if (m->jnt_type[m->dof_jntid[i]] != mjJNT_FREE && mjg_chance(&r, 0.5)) m->dof_damping[i] = mjg_range(&r, 0, 2);
+      for (int i = 0; i < m->ntendon && !custom; i++) if (mjg_chance(&r, 0.5)) m->tendon_damping[i] = mjg_range(&r, 0, 1);
+      mjData* d = mj_makeData(m); mjData* w = mj_makeData(m);
+      mjg_random_state(m, d, &r, 2.0);
+      for (int i = 0; i < m->nu; i++) d->ctrl[i] = mjg_range(&r, -2.5, 2.5);
+      int nv = m->nv; mjtNum eps = 1e-6;
+      int err = 0;
+      mjtNum* buf = (mjtNum*)calloc((size_t)(4 * nv * nv + 4 * nv + 8), sizeof(mjtNum));
+      mjtNum *Sp = buf, *Sm = buf + nv * nv, *Pp = buf + 2 * nv * nv, *Pm = buf + 3 * nv * nv, *S0 = buf + 4 * nv * nv, *P0 = S0 + nv;
+      if (MJG_TRY) {
+        mj_forward(m, d);
+        for (int k = 0; k < nv; k++) { S0[k] = d->qfrc_smooth[k]; P0[k] = d->qfrc_passive[k] + d->qfrc_actuator[k]; }
+        for (int i = 0; i < nv; i++) for (int sgn = 0; sgn < 2; sgn++) {
+          mj_copyData(w, m, d);
+          w->qvel[i] += sgn ? -eps : eps;
+          mj_forward(m, w);
+          for (int k = 0; k < nv; k++) {
+            (sgn ? Sm : Sp)[k * nv + i] = w->qfrc_smooth[k];
+            (sgn ? Pm : Pp)[k * nv + i] = w->qfrc_passive[k] + w->qfrc_actuator[k];
+          }
+        }
+        mjtNum* v0 = (mjtNum*)malloc(sizeof(mjtNum) * (nv + 1)); memcpy(v0, d->qvel, sizeof(mjtNum) * nv);
+        mj_step(m, d);
+        printf("%d |", nv); pv(&m->opt.timestep, 1); printf(" |"); pv(v0, nv); printf(" |"); pv(d->qvel, nv); printf(" |");
+        for (int k = 0; k < nv; k++) { mjtNum f = d->qfrc_smooth[k] + d->qfrc_constraint[k]; pv(&f, 1); }
+        mjtNum* Md = (mjtNum*)calloc((size_t)nv * nv + 1, sizeof(mjtNum)); mj_fullM(m, d, Md);
+        printf(" |"); pv(Md, nv * nv); printf(" |");
+        for (int k = 0; k < nv; k++) {
+          int b = m->dof_bodyid[k], fb = -1;
+          if (m->body_parentid[b] == 0 && m->body_jntnum[b] == 1 && m->jnt_type[m->body_jntadr[b]] == mjJNT_FREE) {
+            fb = b; for (int c = 1; c < m->nbody; c++) if (m->body_parentid[c] == b) fb = -1;
+          }
+          printf(" %d", fb);
+        }
+        printf(" |"); pv(S0, nv); printf(" |"); pv(P0, nv); printf(" |"); pv(Sp, nv * nv); printf(" |"); pv(Sm, nv * nv);
+        printf(" |"); pv(Pp, nv * nv); printf(" |"); pv(Pm, nv * nv);
+        memset(Md, 0, sizeof(mjtNum) * nv * nv);
+        if (integ == mjINT_IMPLICIT || integ == mjINT_IMPLICITFAST)
+          for (int k = 0; k < nv; k++) for (int e = m->D_rowadr[k]; e < m->D_rowadr[k] + m->D_rownnz[k]; e++) Md[k * nv + m->D_colind[e]] = d->qDeriv[e];
+        printf(" |"); pv(Md, nv * nv);
+        printf(" | %d", d->warning[mjWARN_BADQPOS].number + d->warning[mjWARN_BADQVEL].number + d->warning[mjWARN_BADQACC].number);
+        // input facts used to classify the recorded finding C05-F1 (not outputs of the code under test)
+        printf(" |"); for (int k = 0; k < nv; k++) printf(" 0");
+        // sparsity pattern of qDeriv
+        printf(" |");
+        for (int k = 0; k < nv; k++) { printf(" "); for (int i = 0; i < nv; i++) { int in = 0; for (int e = m->D_rowadr[k]; e < m->D_rowadr[k] + m->D_rownnz[k]; e++) if (m->D_colind[e] == i) in = 1; putchar(in ? '1' : '0'); } }
+        // B: dof sets of fixed tendons that carry a velocity-dependent force (damping, or an actuator on the tendon)
+        printf(" |");
+        for (int t = 0; t < m->ntendon; t++) {
+          int vd = m->tendon_damping[t] != 0;
+          for (int i = 0; i < m->nactuator; i++) if (m->actuator_trntype[i] == mjTRN_TENDON && m->actuator_trnid[2 * i] == t) vd = 1;
+          if (!vd) continue;
+          printf(" ;");
+          for (int wv = m->tendon_adr[t]; wv < m->tendon_adr[t] + m->tendon_num[t]; wv++) if (m->wrap_type[wv] == mjWRAP_JOINT) printf(" %d", m->jnt_dofadr[m->wrap_objid[wv]]);
+        }
+        free(Md); free(v0);
+        MJG_END;
+      } else err = 1;
+      printf("%s\n", err ? " ERR" : "");
+      free(buf); mj_deleteData(d); mj_deleteData(w); mj_deleteModel(m);
+    } else if (op == 'V') {
+      // V pre cl clo chi fl flo fhi g0 g1 g2 b0 b1 b2 q v ctrl : one hinge, optional 3-input PID actuator (zero gains, zero inputs)
+      // in front of an affine-gain / affine-bias actuator -> actuator_force, qDeriv (mjd_smooth_vel, no bias), length, nu
+      int pre = (int)strtol(p, &p, 10), cl = (int)strtol(p, &p, 10);
+      double clo = from_bits(strtoull(p, &p, 16)), chi = from_bits(strtoull(p, &p, 16));
+      int fl = (int)strtol(p, &p, 10);
+      double a[12]; for (int i = 0; i < 11; i++) a[i] = from_bits(strtoull(p, &p, 16));
+      mjSpec* s = mj_makeSpec();
+      s->option.gravity[0] = s->option.gravity[1] = s->option.gravity[2] = 0; s->option.integrator = mjINT_IMPLICITFAST;
+      mjsBody* b = mjs_addBody(mjs_findBody(s, "world"), NULL);
+      mjsJoint* j = mjs_addJoint(b, NULL); j->type = mjJNT_HINGE; j->axis[0] = 0; j->axis[1] = 1; j->axis[2] = 0; mjs_setName(j->element, "h");
+      mjsGeom* g = mjs_addGeom(b, NULL); g->type = mjGEOM_SPHERE; g->size[0] = 0.05; g->pos[0] = 0.3;
+      if (pre) { mjsActuator* pa = mjs_addActuator(s, NULL); pa->trntype = mjTRN_JOINT; mjs_setString(pa->target, "h"); double z = 0;
+                 mjs_setToPID(pa, 0, &z, NULL, NULL, NULL, NULL, 0, mjINPUT_POS | mjINPUT_VEL | mjINPUT_FF); }
+      mjsActuator* ac = mjs_addActuator(s, NULL); ac->trntype = mjTRN_JOINT; mjs_setString(ac->target, "h");
+      ac->gaintype = mjGAIN_AFFINE; ac->gainprm[0] = a[2]; ac->gainprm[1] = a[3]; ac->gainprm[2] = a[4];
+      ac->biastype = mjBIAS_AFFINE; ac->biasprm[0] = a[5]; ac->biasprm[1] = a[6]; ac->biasprm[2] = a[7];
+      ac->ctrllimited = cl ? mjLIMITED_TRUE : mjLIMITED_FALSE; ac->ctrlrange[0] = clo; ac->ctrlrange[1] = chi;
+      ac->forcelimited = fl ? mjLIMITED_TRUE : mjLIMITED_FALSE; ac->forcerange[0] = a[0]; ac->forcerange[1] = a[1];
+      mjModel* m = mj_compile(s, NULL);
+      if (!m) { printf("ERR compile %s\n", mjs_getError(s)); mj_deleteSpec(s); fflush(stdout); continue; }
+      mjData* d = mj_makeData(m);
+      int ai = m->nactuator - 1;
+      d->qpos[0] = a[8]; d->qvel[0] = a[9]; d->ctrl[m->actuator_ctrladr[ai]] = a[10];
+      mj_forward(m, d);
+      mjd_smooth_vel(m, d, 0);
+      mjtNum len = d->actuator_length[m->actuator_outadr[ai]];
+      pv(d->actuator_force + m->actuator_outadr[ai], 1); pv(d->qDeriv, 1); pv(&len, 1); printf(" %d %d\n", m->nu, m->nactuator);
+      mj_deleteData(d); mj_deleteModel(m); mj_deleteSpec(s);
     } else if (op == 'R') {
       double a[6]; for (int i = 0; i < 6; i++) a[i] = from_bits(strtoull(p, &p, 16));
       int integ = (int)strtol(p, &p, 10);
